@@ -204,6 +204,12 @@ func Program(t *rapid.T, cfg AsmConfig) rc.Program {
 		endLabel = "Lend"
 		sh.labelAt[endLabel] = sh.n
 	}
+	// a label on the ORG line denotes the instruction that follows that line
+	orgLabelAt := -1
+	if rapid.IntRange(0, 5).Draw(t, "orglabel") == 0 {
+		orgLabelAt = rapid.IntRange(0, sh.n).Draw(t, "orglabelat")
+		sh.labelAt["Lorg"] = orgLabelAt
+	}
 	// EQUs: E_k may reference E_j for j<k only (no cycles); placement is shuffled later
 	ne := rapid.IntRange(0, 4).Draw(t, "nequ")
 	var equItems []rc.Item
@@ -289,7 +295,11 @@ func Program(t *rapid.T, cfg AsmConfig) rc.Program {
 		items = append(items[:pos], append([]rc.Item{s}, items[pos:]...)...)
 	}
 	// entry point
-	switch rapid.IntRange(0, 3).Draw(t, "startkind") {
+	startKind := rapid.IntRange(0, 3).Draw(t, "startkind")
+	if orgLabelAt >= 0 && startKind == 0 {
+		startKind = 1
+	}
+	switch startKind {
 	case 0: // none
 	default:
 		k := rapid.IntRange(0, sh.n-1).Draw(t, "startat")
@@ -323,7 +333,24 @@ func Program(t *rapid.T, cfg AsmConfig) rc.Program {
 		if rapid.Bool().Draw(t, "orgmid") {
 			pos = rapid.IntRange(0, len(items)).Draw(t, "orgpos")
 		}
-		items = append(items[:pos], append([]rc.Item{{Kind: rc.KOrg, Expr: e}}, items[pos:]...)...)
+		org := rc.Item{Kind: rc.KOrg, Expr: e}
+		if orgLabelAt >= 0 {
+			// the labelled ORG line stands right before the instruction its label denotes
+			org.Labels = []string{"Lorg"}
+			pos, seen := len(items), 0
+			for i, it := range items {
+				if it.Kind == rc.KInstr {
+					if seen == orgLabelAt {
+						pos = i
+						break
+					}
+					seen++
+				}
+			}
+			items = append(items[:pos], append([]rc.Item{org}, items[pos:]...)...)
+		} else {
+			items = append(items[:pos], append([]rc.Item{org}, items[pos:]...)...)
+		}
 	}
 	if endLabel != "" {
 		items = append(items, rc.Item{Kind: rc.KEnd, Labels: []string{endLabel}})
